@@ -1,5 +1,440 @@
 //! Verification hook ops for module `wrap` (see mod.rs for the protocol).
+//!
+//! Text is passed pre-segmented: a section is `<style> <k> {<cluster> <width>}*k`. The hook
+//! joins the clusters, and refuses the request (`ERR domain…`) when the implementation's own
+//! segmentation / widths of the joined section text differ from what the request states, so
+//! that model and implementation always see the same Unicode data.
+use std::cell::RefCell;
 
-pub fn handle(op: &str, _args: &[&str]) -> Result<String, String> {
-    Err(format!("unknown op: wrap.{op}"))
+use syntect::highlighting::Style as SyntectStyle;
+use unicode_segmentation::UnicodeSegmentation;
+use unicode_width::UnicodeWidthStr;
+
+use super::{hex, num, unhex};
+use crate::ansi;
+use crate::config::Config;
+use crate::delta::{DiffType, State};
+use crate::features::side_by_side;
+use crate::minusplus::MinusPlus;
+use crate::style::Style;
+use crate::wrapping::{wrap_line, wrap_minusplus_block};
+
+thread_local! {
+    static WCFG: RefCell<Option<Config>> = const { RefCell::new(None) };
+}
+
+fn base_config(args: &[&str]) -> Config {
+    let mut all: Vec<String> = vec!["delta".into(), "--no-gitconfig".into()];
+    all.extend(args.iter().map(|s| s.to_string()));
+    let env = crate::env::DeltaEnv::default();
+    let opt = crate::cli::Opt::from_iter_and_git_config(&env, all, None);
+    Config::from(opt)
+}
+
+struct Cur<'a> {
+    args: &'a [&'a str],
+    pos: usize,
+}
+
+impl<'a> Cur<'a> {
+    fn next(&mut self) -> Result<&'a str, String> {
+        let f = self.args.get(self.pos).ok_or("request too short")?;
+        self.pos += 1;
+        Ok(f)
+    }
+    fn num(&mut self) -> Result<usize, String> {
+        num(self.next()?)
+    }
+    fn string(&mut self) -> Result<String, String> {
+        unhex(self.next()?)
+    }
+    fn opt_num(&mut self) -> Result<Option<usize>, String> {
+        let f = self.next()?;
+        if f == "-" {
+            Ok(None)
+        } else {
+            Ok(Some(num(f)?))
+        }
+    }
+    fn done(&self) -> Result<(), String> {
+        if self.pos == self.args.len() {
+            Ok(())
+        } else {
+            Err("trailing fields".into())
+        }
+    }
+    /// `<k> {<cluster> <width>}*k` -> joined text; checks the segmentation.
+    fn clusters(&mut self) -> Result<String, String> {
+        let k = self.num()?;
+        let mut given = Vec::new();
+        let mut text = String::new();
+        for _ in 0..k {
+            let g = self.string()?;
+            let w = self.num()?;
+            text.push_str(&g);
+            given.push((g, w));
+        }
+        let own: Vec<(String, usize)> = text
+            .graphemes(true)
+            .map(|g| (g.to_string(), g.width()))
+            .collect();
+        if own != given {
+            return Err(format!("domain: segmentation differs for {text:?}"));
+        }
+        Ok(text)
+    }
+    /// `<n> {T <clusters> | A <xstr>}*n` -> joined string; checks that the implementation's
+    /// ANSI element iterator yields these items and that width is additive over clusters.
+    fn items(&mut self) -> Result<String, String> {
+        let n = self.num()?;
+        let mut s = String::new();
+        let mut given: Vec<(String, bool)> = Vec::new();
+        for _ in 0..n {
+            match self.next()? {
+                "A" => {
+                    let a = self.string()?;
+                    s.push_str(&a);
+                    given.push((a, true));
+                }
+                "T" => {
+                    let t = self.clusters()?;
+                    s.push_str(&t);
+                    given.push((t, false));
+                }
+                x => return Err(format!("bad item kind {x}")),
+            }
+        }
+        if ansi::verif_ansi_strings(&s) != given {
+            return Err(format!("domain: ansi items differ for {s:?}"));
+        }
+        // the implementation measures the stripped string as a whole
+        let stripped = ansi::strip_ansi_codes(&s);
+        let sum: usize = stripped.graphemes(true).map(|g| g.width()).sum();
+        if stripped.width() != sum {
+            return Err(format!("domain: width not additive for {stripped:?}"));
+        }
+        Ok(s)
+    }
+    /// `<sym> <width>`: one cluster
+    fn symbol(&mut self) -> Result<String, String> {
+        let s = self.string()?;
+        let w = self.num()?;
+        if s.grapheme_indices(true).count() != 1 || s.width() != w {
+            return Err(format!("domain: symbol {s:?}"));
+        }
+        Ok(s)
+    }
+    /// `<n> {<style> <clusters>}*n`
+    fn sections(&mut self) -> Result<Vec<(usize, String)>, String> {
+        let n = self.num()?;
+        let mut v = Vec::new();
+        for _ in 0..n {
+            let st = self.num()?;
+            v.push((st, self.clusters()?));
+        }
+        Ok(v)
+    }
+    /// `<maxLines> <permille> <lsym> <w> <rsym> <w> <psym> <w>` into the hook's Config
+    fn wrap_config(&mut self, cfg: &mut Config) -> Result<(), String> {
+        cfg.wrap_config.max_lines = self.num()?;
+        cfg.wrap_config.use_wrap_right_permille = self.num()?;
+        cfg.wrap_config.left_symbol = self.symbol()?;
+        cfg.wrap_config.right_symbol = self.symbol()?;
+        cfg.wrap_config.right_prefix_symbol = self.symbol()?;
+        Ok(())
+    }
+}
+
+#[derive(Clone, Copy, Debug, Default, PartialEq)]
+struct Tag(usize);
+
+type Line = (bool, Vec<(usize, String)>, Vec<(usize, String)>);
+
+fn syn_of<'a>(lines: &'a [Line]) -> Vec<Vec<(SyntectStyle, &'a str)>> {
+    lines
+        .iter()
+        .map(|(_, syn, _)| {
+            syn.iter()
+                .map(|(s, t)| (syn_style(*s), t.as_str()))
+                .collect()
+        })
+        .collect()
+}
+
+fn dif_of<'a>(lines: &'a [Line]) -> Vec<Vec<(Style, &'a str)>> {
+    lines
+        .iter()
+        .map(|(_, _, dif)| {
+            dif.iter()
+                .map(|(s, t)| (diff_style(*s), t.as_str()))
+                .collect()
+        })
+        .collect()
+}
+
+fn fmt_rows<S>(rows: &[Vec<(S, &str)>], tag: impl Fn(&S) -> String) -> String {
+    let mut out = String::new();
+    for row in rows {
+        out.push_str(" R");
+        for (s, t) in row {
+            out.push(' ');
+            out.push_str(&tag(s));
+            out.push(':');
+            out.push_str(&hex(t));
+        }
+    }
+    out
+}
+
+const FILL_TAG: usize = 1000;
+const HINT_TAG: usize = 1001;
+
+fn syn_style(i: usize) -> SyntectStyle {
+    let mut s = SyntectStyle::default();
+    s.foreground = syntect::highlighting::Color {
+        r: (i % 256) as u8,
+        g: (i / 256) as u8,
+        b: 7,
+        a: 77,
+    };
+    s
+}
+
+fn syn_tag(cfg: &Config, s: &SyntectStyle) -> String {
+    if s.foreground.a == 77 && s.foreground.b == 7 {
+        format!(
+            "{}",
+            s.foreground.r as usize + 256 * s.foreground.g as usize
+        )
+    } else if *s == cfg.wrap_config.inline_hint_syntect_style {
+        format!("{HINT_TAG}")
+    } else if *s == cfg.null_syntect_style {
+        format!("{FILL_TAG}")
+    } else {
+        "?".into()
+    }
+}
+
+const DIFF_MARK: u8 = 99;
+
+fn diff_style(i: usize) -> Style {
+    let mut s = Style::default();
+    s.ansi_term_style.foreground = Some(ansi_term::Color::RGB(
+        (i % 256) as u8,
+        (i / 256) as u8,
+        DIFF_MARK,
+    ));
+    s
+}
+
+fn diff_tag(cfg: &Config, side_fill: &Style, s: &Style) -> String {
+    match s.ansi_term_style.foreground {
+        Some(ansi_term::Color::RGB(r, g, DIFF_MARK)) => {
+            format!("{}", r as usize + 256 * g as usize)
+        }
+        _ if s == side_fill => format!("{FILL_TAG}"),
+        _ if *s == cfg.inline_hint_style => format!("{HINT_TAG}"),
+        _ => "?".into(),
+    }
+}
+
+fn with_cfg<T>(f: impl FnOnce(&mut Config) -> Result<T, String>) -> Result<T, String> {
+    WCFG.with(|c| {
+        let mut c = c.borrow_mut();
+        if c.is_none() {
+            *c = Some(base_config(&[]));
+        }
+        f(c.as_mut().unwrap())
+    })
+}
+
+pub fn handle(op: &str, args: &[&str]) -> Result<String, String> {
+    let mut cur = Cur { args, pos: 0 };
+    match op {
+        // wrap.line <lw> <WRAPCFG> <fill> <hint|-> <sections>  ->  ok {R {<style>:<text>}*}*
+        "line" => with_cfg(|cfg| {
+            let lw = cur.num()?;
+            cur.wrap_config(cfg)?;
+            let fill = Tag(cur.num()?);
+            let hint = cur.opt_num()?.map(Tag);
+            let secs = cur.sections()?;
+            cur.done()?;
+            let line: Vec<(Tag, &str)> = secs.iter().map(|(s, t)| (Tag(*s), t.as_str())).collect();
+            let rows = wrap_line(cfg, line, lw, &fill, &hint);
+            Ok(format!(
+                "ok{}",
+                fmt_rows(&rows, |t: &Tag| format!("{}", t.0))
+            ))
+        }),
+        // wrap.block <WRAPCFG> <lwL> <lwR> <nalign> {<m|-> <p|->}* <nminus> {LINE}* <nplus> {LINE}*
+        //   LINE = <mustwrap> <syntax sections> <diff sections>
+        "block" => with_cfg(|cfg| {
+            cur.wrap_config(cfg)?;
+            let lw = MinusPlus::new(cur.num()?, cur.num()?);
+            let nal = cur.num()?;
+            let mut alignment = Vec::new();
+            for _ in 0..nal {
+                alignment.push((cur.opt_num()?, cur.opt_num()?));
+            }
+            let mut sides: Vec<Vec<Line>> = Vec::new();
+            for _ in 0..2 {
+                let n = cur.num()?;
+                let mut lines = Vec::new();
+                for _ in 0..n {
+                    let mw = cur.num()? != 0;
+                    let syn = cur.sections()?;
+                    let dif = cur.sections()?;
+                    lines.push((mw, syn, dif));
+                }
+                sides.push(lines);
+            }
+            cur.done()?;
+            let wrapinfo = MinusPlus::new(
+                sides[0].iter().map(|l| l.0).collect::<Vec<bool>>(),
+                sides[1].iter().map(|l| l.0).collect::<Vec<bool>>(),
+            );
+            let cfg: &Config = cfg;
+            let (al, states, syn, dif) = wrap_minusplus_block(
+                cfg,
+                MinusPlus::new(syn_of(&sides[0]), syn_of(&sides[1])),
+                MinusPlus::new(dif_of(&sides[0]), dif_of(&sides[1])),
+                &alignment,
+                &lw,
+                &wrapinfo,
+            );
+            let o = |x: Option<usize>| x.map(|v| v.to_string()).unwrap_or("-".into());
+            let mut out = format!("ok A {}", al.len());
+            for (m, p) in &al {
+                out.push_str(&format!(" {} {}", o(*m), o(*p)));
+            }
+            let st = |v: &Vec<State>| -> String {
+                v.iter()
+                    .map(|s| match s {
+                        State::HunkMinus(DiffType::Unified, None)
+                        | State::HunkPlus(DiffType::Unified, None) => "1",
+                        State::HunkMinusWrapped | State::HunkPlusWrapped => "0",
+                        _ => "?",
+                    })
+                    .collect::<Vec<_>>()
+                    .join("")
+            };
+            out.push_str(&format!(
+                " SL x{} SR x{}",
+                st(&states.minus),
+                st(&states.plus)
+            ));
+            out.push_str(" SYNL");
+            out.push_str(&fmt_rows(&syn.minus, |s| syn_tag(cfg, s)));
+            out.push_str(" DIFL");
+            out.push_str(&fmt_rows(&dif.minus, |s| {
+                diff_tag(cfg, &cfg.minus_style, s)
+            }));
+            out.push_str(" SYNR");
+            out.push_str(&fmt_rows(&syn.plus, |s| syn_tag(cfg, s)));
+            out.push_str(" DIFR");
+            out.push_str(&fmt_rows(&dif.plus, |s| diff_tag(cfg, &cfg.plus_style, s)));
+            Ok(out)
+        }),
+        // wrap.ansi_items <s> -> ok {T <k> {<cluster> <w>}* | A <xstr>}*   (ansi_strings_iterator)
+        "ansi_items" => {
+            let s = cur.string()?;
+            cur.done()?;
+            let mut out = String::from("ok");
+            for (t, is_ansi) in ansi::verif_ansi_strings(&s) {
+                if is_ansi {
+                    out.push_str(&format!(" A {}", hex(&t)));
+                } else {
+                    let gs: Vec<&str> = t.graphemes(true).collect();
+                    out.push_str(&format!(" T {}", gs.len()));
+                    for g in gs {
+                        out.push_str(&format!(" {} {}", hex(g), g.width()));
+                    }
+                }
+            }
+            Ok(out)
+        }
+        // wrap.truncate <display_width> <fill2w 0|1> <items s> <items tail> -> ok <xresult>
+        // wrap.measure <items s> -> ok <n>
+        "truncate" | "measure" => {
+            let (dw, fill) = if op == "truncate" {
+                (cur.num()?, cur.num()? != 0)
+            } else {
+                (0, false)
+            };
+            let mut strings = Vec::new();
+            for _ in 0..(if op == "truncate" { 2 } else { 1 }) {
+                strings.push(cur.items()?);
+            }
+            cur.done()?;
+            if op == "measure" {
+                Ok(format!("ok {}", ansi::measure_text_width(&strings[0])))
+            } else if fill {
+                Ok(format!(
+                    "ok {}",
+                    hex(&ansi::truncate_str(&strings[0], dw, &strings[1]))
+                ))
+            } else if strings[1].is_empty() {
+                Ok(format!(
+                    "ok {}",
+                    hex(&ansi::truncate_str_short(&strings[0], dw))
+                ))
+            } else {
+                Err("truncate_str_short takes no tail".into())
+            }
+        }
+        // wrap.panels <xarg>… -> ok <left width> <right width> <available_terminal_width>
+        //   (Config::from: SideBySideData::new_sbs + sbs_odd_fix)
+        "panels" => {
+            let a = args
+                .iter()
+                .map(|f| unhex(f))
+                .collect::<Result<Vec<_>, _>>()?;
+            let a: Vec<&str> = a.iter().map(|s| s.as_str()).collect();
+            let cfg = base_config(&a);
+            Ok(format!(
+                "ok {} {} {}",
+                cfg.side_by_side_data[side_by_side::Left].width,
+                cfg.side_by_side_data[side_by_side::Right].width,
+                cfg.available_terminal_width
+            ))
+        }
+        // wrap.pad_panel <side l|r> <panel width> <items line> <items tail>
+        //   (line_index None: the panel of a row whose other side holds the line; fill style =
+        //   null style; tail must be the configured truncation symbol)  -> ok <xpadded>
+        "pad_panel" => with_cfg(|cfg| {
+            let side = match cur.next()? {
+                "l" => side_by_side::Left,
+                "r" => side_by_side::Right,
+                x => return Err(format!("bad side {x}")),
+            };
+            let pw = cur.num()?;
+            let mut line = cur.items()?;
+            let tail = cur.items()?;
+            cur.done()?;
+            if tail != cfg.truncation_symbol {
+                return Err(format!(
+                    "domain: truncation symbol is {:?}",
+                    cfg.truncation_symbol
+                ));
+            }
+            cfg.side_by_side_data[side].width = pw;
+            let state = if side == side_by_side::Left {
+                State::HunkMinus(DiffType::Unified, None)
+            } else {
+                State::HunkPlus(DiffType::Unified, None)
+            };
+            side_by_side::verif_wrap_pad_panel_line_to_width(
+                &mut line,
+                false,
+                None,
+                &[],
+                None,
+                &state,
+                side,
+                cfg,
+            );
+            Ok(format!("ok {}", hex(&line)))
+        }),
+        _ => Err(format!("unknown op: wrap.{op}")),
+    }
 }
